@@ -385,4 +385,74 @@ theorem old_tag_unit_crashes :
     analyzeAll demoEnv false [demoX[3]] = .error .tagUnitInvalid ∧ lintAll demoEnv false [demoX[3]] = [.generic] ∧
     analyzeAll demoEnv true [demoX[3]] = .ok [⟨.condition, "InvalidUnit", 3, true, false⟩] := by decide +kernel
 
+/-! ## Lint over time is a function of the text and of the CURRENT tag / command set -/
+
+/-- the cache of `create_analysis_input` is empty, or holds the definition `fetch_uod_info` answers; while the engine's
+    `UodInfoMsg` is still to come there is no definition and the cache is empty -/
+def SessOk (canInfo : Bool) (s : Sess) : Prop :=
+  (s.cached = none ∨ s.cached = s.defn) ∧ (canInfo = true → s.defn = none ∧ s.cached = none)
+
+/-- **No hidden state.**  For every history of registrations, definition updates and lints that follows the message
+    protocol, each lint returns exactly `lintPure (current definition) (current text)`: what the editor shows never
+    depends on earlier lints or on earlier tag / command sets.  (An implementation that keeps results across a change
+    of the definition disagrees with `sessRun`.) -/
+theorem lint_history_is_pure (ops : List SessOp) (c : Bool) (s : Sess) (hc : Conforms c ops) (hs : SessOk c s) :
+    sessRun s ops = pureRun s.defn ops := by
+  induction ops generalizing c s with
+  | nil => rfl
+  | cons op ops ih =>
+    cases op with
+    | register =>
+      simp only [sessRun, sessStep, pureRun]
+      exact ih true ⟨none, none⟩ hc ⟨Or.inl rfl, fun _ => ⟨rfl, rfl⟩⟩
+    | uodInfo E =>
+      obtain ⟨hct, hrest⟩ := hc
+      simp only [sessRun, sessStep, pureRun]
+      have hnone : s.cached = none := (hs.2 hct).2
+      exact ih false ⟨some E, s.cached⟩ hrest ⟨Or.inl hnone, fun h => by cases h⟩
+    | lint xs =>
+      simp only [sessRun, sessStep, pureRun]
+      cases hcached : s.cached with
+      | some E =>
+        have hd : s.defn = some E := by
+          rcases hs.1 with h | h
+          · rw [h] at hcached; cases hcached
+          · rw [← h]; exact hcached
+        simp only [hd, lintPure]
+        have := ih c s hc hs
+        rw [hd] at this
+        rw [this]
+      | none =>
+        cases hd : s.defn with
+        | none =>
+          simp only [lintPure]
+          have := ih c s hc hs
+          rw [hd] at this
+          rw [this]
+        | some E =>
+          simp only [lintPure]
+          have hcf : c = false := by
+            cases c with
+            | false => rfl
+            | true => have := (hs.2 rfl).1; rw [hd] at this; cases this
+          subst hcf
+          rw [ih false ⟨some E, some E⟩ hc ⟨Or.inr rfl, fun h => by cases h⟩]
+
+/-- From the start (no engine registered yet) every protocol-conforming history is pure. -/
+theorem lint_history_from_start (ops : List SessOp) (hc : Conforms false ops) :
+    sessRun ⟨none, none⟩ ops = pureRun none ops :=
+  lint_history_is_pure ops false ⟨none, none⟩ hc ⟨Or.inl rfl, fun h => by cases h⟩
+
+-- non-vacuity: the same document linted before and after the engine re-registers with a smaller tag set — the
+-- second lint flags the tag that is no longer defined (`demoEnv` without `Flow`)
+example :
+    let small : Env := { demoEnv with tags := [⟨"pH", none⟩] }
+    let doc : List XNode := [⟨⟨0, .watch, some ⟨some "Flow", ">", "3 L/h", some "3", some "L/h"⟩, "Watch", "",
+      "Flow > 3 L/h", true, true⟩, false, false, none, 0, .none⟩]
+    Conforms false [.register, .uodInfo demoEnv, .lint doc, .register, .lint doc, .uodInfo small, .lint doc] ∧
+    sessRun ⟨none, none⟩ [.register, .uodInfo demoEnv, .lint doc, .register, .lint doc, .uodInfo small, .lint doc] =
+      [[], [.generic], [.ofItem ⟨.condition, "UndefinedTag", 0, true, false⟩]] := by
+  refine ⟨by simp [Conforms], ?_⟩
+  decide +kernel
+
 end OPM.C19
